@@ -910,6 +910,72 @@ def g_sedov_eos():
     return {'SedovEos': (text, js)}
 
 
+@group('rectangle')
+def g_rectangle():
+    """Rectangle (heat/rectangle.py): static term (loop n = 1 .. Nsum-1), transient term (loops n = 0 .. Nsum-1, m = 1 .. Nsum-1) and how they are added;
+    the loops become sum_range"""
+    from py2coq import Interp, free_vars
+    mod = Module(os.path.join(S, 'heat/rectangle.py'))
+    cn = mod.classes['Rectangle']
+    run = [st for st in cn.body if isinstance(st, ast.FunctionDef) and st.name == '_run'][0]
+    body = [st for st in run.body if not (isinstance(st, ast.Expr) and isinstance(st.value, ast.Constant))]
+    src = [ast.unparse(st) for st in body]
+    if src[:4] != ['x = xylist[0]', 'y = xylist[1]', 'tempnonhom = 0', 'temperature = 0']:
+        raise Unsupported('rectangle._run: prologue %s' % src[:4])
+    L1, IF, FIN, RET = body[4:8] if len(body) == 8 else (None,) * 4
+    if not (isinstance(L1, ast.For) and ast.unparse(L1.iter) == 'range(1, self.Nsum)' and isinstance(IF, ast.If) and ast.unparse(IF.test) == 'self.NonHomogeneousOnly == False'
+            and not IF.orelse and ast.unparse(FIN) == 'temperature = temperature + tempnonhom' and isinstance(RET, ast.Return)
+            and ast.unparse(RET.value).replace(' ', '').startswith('ExactSolution([x,y,temperature],')):
+        raise Unsupported('rectangle._run: structure')
+    if not (len(IF.body) == 1 and isinstance(IF.body[0], ast.For) and ast.unparse(IF.body[0].iter) == 'range(0, self.Nsum)'):
+        raise Unsupported('rectangle._run: transient outer loop')
+    L2 = IF.body[0]
+    inner = [st for st in L2.body if isinstance(st, ast.For)]
+    if not (len(inner) == 1 and L2.body[-1] is inner[0] and ast.unparse(inner[0].iter) == 'range(1, self.Nsum)'):
+        raise Unsupported('rectangle._run: transient inner loop')
+    L3 = inner[0]
+    P = ['kappa', 'a', 'b', 'Ttop']
+    selfo = Obj('', {a: ('var', a) for a in P + ['Nsum']}, frozen=True, name='self')
+
+    def term(stmts, env, acc_name):
+        acc = stmts[-1]
+        if not (isinstance(acc, ast.AugAssign) and isinstance(acc.op, ast.Add) and ast.unparse(acc.target) == acc_name and isinstance(acc.value, ast.Name)):
+            raise Unsupported('rectangle._run: loop does not end with %s += <name>' % acc_name)
+        interp = Interp(mod, {})
+        interp.exec_body(stmts[:-1], env)
+        if interp.raises or not is_expr(env[acc.value.id]):
+            raise Unsupported('rectangle._run: term')
+        return env[acc.value.id]
+    env1 = {'self': selfo, 'x': ('var', 'x'), 'y': ('var', 'y'), 't': ('var', 't'), L1.target.id: ('var', 'n')}
+    st_term = term(list(L1.body), env1, 'tempnonhom')
+    env2 = {'self': selfo, 'x': ('var', 'x'), 'y': ('var', 'y'), 't': ('var', 't'), L2.target.id: ('var', 'n'), L3.target.id: ('var', 'm')}
+    tr_term = term([st for st in L2.body if st is not L3] + list(L3.body), env2, 'temperature')
+    text = HEADER % 'exactpack/solvers/heat/rectangle.py'
+    js = {}
+    a1 = [a for a in P + ['n', 'x', 'y'] if a in free_vars(st_term)]
+    a2 = [a for a in P + ['n', 'm', 'x', 'y', 't'] if a in free_vars(tr_term)]
+    if set(free_vars(st_term)) - set(a1) or set(free_vars(tr_term)) - set(a2):
+        raise Unsupported('rectangle: stray variables')
+    text += '\n' + emit_function('rect_static_term', a1, st_term, comment='Rectangle._run: term n of the static (non-homogeneous) part')
+    text += '#[global] Hint Unfold rect_static_term : epgen.\n'
+    text += '\n' + emit_function('rect_trans_term', a2, tr_term, comment='Rectangle._run: term (n, m) of the transient part')
+    text += '#[global] Hint Unfold rect_trans_term : epgen.\n'
+    p1 = [a for a in a1 if a not in ('n', 'x', 'y')]
+    p2 = [a for a in a2 if a not in ('n', 'm', 'x', 'y', 't')]
+    allp = [a for a in P if a in p1 or a in p2]
+    text += 'Definition rect_static (%s Nsum x y : R) : R :=\n  sum_range (fun n : R => rect_static_term %s) 1 Nsum.\n' % (' '.join(p1), ' '.join(a1))
+    text += 'Definition rect_transient (%s Nsum x y t : R) : R :=\n  sum_range (fun n : R => sum_range (fun m : R => rect_trans_term %s) 1 Nsum) 0 Nsum.\n' % (' '.join(p2), ' '.join(a2))
+    text += '(* NonHomogeneousOnly == False (default) *)\n'
+    text += 'Definition rect_temperature (%s Nsum x y t : R) : R :=\n  rect_transient %s Nsum x y t + rect_static %s Nsum x y.\n' % (' '.join(allp), ' '.join(p2), ' '.join(p1))
+    text += '(* NonHomogeneousOnly == True *)\n'
+    text += 'Definition rect_temperature_static_only (%s Nsum x y : R) : R :=\n  0 + rect_static %s Nsum x y.\n' % (' '.join(p1), ' '.join(p1))
+    text += '#[global] Hint Unfold rect_static rect_transient rect_temperature rect_temperature_static_only : epgen.\n'
+    js['static_term'] = {'args': a1, 'expr': expr_to_json(st_term)}
+    js['trans_term'] = {'args': a2, 'expr': expr_to_json(tr_term)}
+    js['temperature'] = {'args': allp + ['Nsum', 'x', 'y', 't'], 'static_params': p1, 'trans_params': p2}
+    return {'Rectangle': (text, js)}
+
+
 def methods_group(relpath, outname, specs):
     """specs: list of (coq prefix, class, [self attribute names], [(method, [arg names])])"""
     from gen import translate_method, nan_cond, strip_nan
